@@ -39,7 +39,7 @@ interface Node { id: ID }
 type Obj implements Node { id: ID x: Int y: Int! o: Obj l: [Obj] }
 type Other implements Node { id: ID z: Int }
 union U = Obj | Other
-type Query { a: Int b: Int c: Int! o: Obj n: Obj! l: [Obj] ln: [Obj!] i: Node u: [U] s(v: Int = 7): Int ev: Obj tick(step: Int = 1): Int nums: [Int] w: Int }
+type Query { a: Int b: Int c: Int! o: Obj n: Obj! l: [Obj] ln: [Obj!] i: Node u: [U] s(v: Int = 7): Int ev: Obj tick(step: Int = 1): Int nums: [Int] w: Int el: [Obj] }
 type Mutation { m1: Obj m2: Obj m3: Int m4: [Obj] m5: Int! }
 type Subscription { ev: Obj tick(step: Int = 1): Int }
 """
@@ -59,7 +59,7 @@ OBJ1 = {"__typename__": "Obj", "id": "1", "x": 10, "y": 11, "o": OBJ2, "l": [OBJ
 OTHER = {"__typename__": "Other", "id": "9", "z": 90}
 ROOT = {
     "a": 1, "b": 2, "c": 3, "o": OBJ1, "n": OBJ1, "l": [OBJ1, OBJ2], "ln": [OBJ1, OBJ2],
-    "i": OBJ1, "u": [OBJ1, OTHER], "s": 5, "nums": [1, 2, 3], "w": 4,
+    "i": OBJ1, "u": [OBJ1, OTHER], "s": 5, "nums": [1, 2, 3], "w": 4, "el": [],
     "m1": OBJ1, "m2": OBJ2, "m3": 3, "m4": [OBJ1, OBJ2], "m5": 5,
 }
 
